@@ -23,6 +23,7 @@ class Chars:
     Equals = '='
     Asterisk = '*'
     Hash = '#'
+    At = '@'
 
 scan_opt = { 'throws': False }
 default_special = {
